@@ -5,7 +5,8 @@ from pathlib import Path
 
 SEEDED = Path("/verif/seeded")
 rows = []
-for out in sorted(Path("/tmp/mut").glob("C*_out")):
+outs = [(o, "") for o in sorted(Path("/tmp/mut").glob("C*_out"))] + [(o, "r2-") for o in sorted(Path("/tmp/mut2").glob("C*_out"))]
+for out, tag in outs:
     prop = out.name[:3]
     for k in (1, 2, 3):
         patch, demo, meta, conf, det = (out / f"patch_{k}.diff", out / f"demo_{k}.py", out / f"meta_{k}.json",
@@ -16,9 +17,9 @@ for out in sorted(Path("/tmp/mut").glob("C*_out")):
         ok = c.get("applies") and "2568 passed" in c.get("tests", "") and c.get("demo_exit_with_change") not in (0, None) \
             and c.get("demo_exit_without_change") == 0
         if not ok:
-            rows.append((f"{prop}-{k}", "NOT KEPT (could not be confirmed: %s)" % c, ""))
+            rows.append((f"{prop}-{tag}{k}", "NOT KEPT (could not be confirmed: %s)" % c, ""))
             continue
-        d = SEEDED / f"{prop}-{k}"
+        d = SEEDED / f"{prop}-{tag}{k}"
         d.mkdir(parents=True, exist_ok=True)
         shutil.copy(patch, d / "patch.diff")
         shutil.copy(demo, d / "demo.py")
@@ -32,7 +33,7 @@ for out in sorted(Path("/tmp/mut").glob("C*_out")):
             other[f.stem.split("_by_")[1]] = {"exit": int(mm.group(1)) if mm else -1,
                 "first_reports": [l[:300] for l in t.splitlines() if "violation:" in l][:2]}
         m2 = {
-            "id": f"{prop}-{k}", "property": prop,
+            "id": f"{prop}-{tag}{k}", "property": prop,
             "summary": m.get("summary"), "what_breaks": m.get("what_breaks"),
             "needs_to_manifest": m.get("needs_to_manifest"), "files_changed": m.get("files_changed"),
             "author": "independent sub-agent given only the property text and a scratch worktree",
@@ -40,14 +41,14 @@ for out in sorted(Path("/tmp/mut").glob("C*_out")):
                                          "demo.py with and without the change", **c},
             "detection": det_j,
             "detected_by_other_checks": other,
-            "how_to_run": f"git -C /repo apply /verif/seeded/{prop}-{k}/patch.diff && (cd /verif && ./check {prop}); git -C /repo checkout -- .",
+            "how_to_run": f"git -C /repo apply /verif/seeded/{prop}-{tag}{k}/patch.diff && (cd /verif && ./check {prop}); git -C /repo checkout -- .",
         }
         (d / "meta.json").write_text(json.dumps(m2, indent=1) + "\n")
         caught = "caught (exit %s)" % det_j["exit"] if det_j and det_j["exit"] == 1 else ("MISSED" if det_j else "not evaluated")
         for oc, od in other.items():
             if od["exit"] == 1:
                 caught += f"; caught by ./check {oc}"
-        rows.append((f"{prop}-{k}", (m.get("summary") or "")[:110], caught))
+        rows.append((f"{prop}-{tag}{k}", (m.get("summary") or "")[:110], caught))
 lines = ["# Seeded changes", "",
     "Each directory holds one source change written by an independent sub-agent that saw only the property text and its own",
     "scratch worktree, never /verif.  All keep the package importable and the 2568-test suite green (confirmed again by the",
